@@ -69,6 +69,9 @@ type HostSpec struct {
 	Has  string   `json:"has"` // has | lacks
 	Word []Letter `json:"word,omitempty"`
 	Tail *Letter  `json:"tail,omitempty"`
+	// host configuration settings a user can give with "regctl registry set"
+	Prefix string `json:"prefix,omitempty"`  // pathPrefix (mirror inside a repository namespace)
+	NoHead bool   `json:"no_head,omitempty"` // apiOpts disableHead=true
 }
 
 // ClassFault targets the requests of one class on the upstream host (L2).
@@ -115,6 +118,7 @@ type world struct {
 	dInit   time.Duration
 	nMirror int
 	cfaults []ClassFault
+	dupFirst bool // the first mirror is listed twice in the configuration
 	l2      bool // RegClient layer: bodies may be consumed long after the response arrived
 }
 
@@ -215,26 +219,92 @@ func letterFault(l Letter) (rm.Fault, bool) {
 // concurrency slot that is not given back (see the slot probe of L1) must show
 // up as a counted observation, not as a dead-locked case.
 func configHosts(c Case, reqConcurrent int64) map[string]*config.Host {
+	if c.Slots > 0 {
+		reqConcurrent = int64(c.Slots)
+	}
 	out := map[string]*config.Host{}
-	up := config.HostNewName(upName)
-	up.Priority = uint(c.Up.Prio)
-	up.ReqConcurrent = reqConcurrent
-	for i, ms := range c.Mirrors {
-		n := mirrorName(i)
-		h := config.HostNewName(n)
-		h.Priority = uint(ms.Prio)
+	mk := func(wire string, hs HostSpec) *config.Host {
+		h := config.HostNewName(c.cname(wire))
+		h.Name = c.cname(wire)
+		h.Hostname = wire
+		h.Priority = uint(hs.Prio)
 		h.ReqConcurrent = reqConcurrent
+		if c.ReqPerSec > 0 {
+			h.ReqPerSec = float64(c.ReqPerSec)
+		}
+		h.RepoAuth = c.RepoAuth
+		h.PathPrefix = hs.Prefix
+		if hs.NoHead {
+			h.APIOpts = map[string]string{"disableHead": "true"}
+		}
 		if c.Creds {
 			h.User, h.Pass = "user", "secret"
 		}
-		out[n] = h
-		up.Mirrors = append(up.Mirrors, n)
+		return h
 	}
-	if c.Creds {
-		up.User, up.Pass = "user", "secret"
+	up := mk(upName, c.Up)
+	for i, ms := range c.Mirrors {
+		n := mirrorName(i)
+		out[c.cname(n)] = mk(n, ms)
+		up.Mirrors = append(up.Mirrors, c.cname(n))
+		if c.DupMirror && i == 0 {
+			up.Mirrors = append(up.Mirrors, c.cname(n))
+		}
 	}
-	out[upName] = up
+	if c.P.HostChunk {
+		up.BlobChunk, up.BlobMax = int64(c.P.Chunk), int64(c.P.MaxPut)
+	}
+	out[c.cname(upName)] = up
 	return out
+}
+
+// cname is the name the CLIENT knows a host by. With an alias mode the
+// configured Name differs from the Hostname requests are sent to (the docs'
+// own mirror example is for Docker Hub, whose name "docker.io" never appears
+// on the wire).
+func (c Case) cname(wire string) string {
+	switch c.Alias {
+	case "names":
+		return "cfg-" + wire
+	case "dockerhub":
+		if wire == upName {
+			return "docker.io"
+		}
+		return "cfg-" + wire
+	}
+	return wire
+}
+
+// repoOn is the repository path a host serves repo under.
+func (w *world) repoOn(host, repo string) string {
+	if p := w.spec[host].Prefix; p != "" {
+		return p + "/" + repo
+	}
+	return repo
+}
+
+// normPath strips a mirror's path prefix so that the attempts of one logical
+// request compare equal across hosts.
+func (w *world) normPath(e *rm.Entry) string {
+	if p := w.spec[e.Host].Prefix; p != "" {
+		return strings.Replace(e.Path, "/v2/"+p+"/", "/v2/", 1)
+	}
+	return e.Path
+}
+
+// noHeadHosts counts the configured hosts that refuse HEAD (each costs a HEAD
+// request one attempt without any HTTP request being sent).
+func (w *world) noHeadHosts() int {
+	n := 0
+	for i, h := range w.names {
+		if w.spec[h].NoHead {
+			n++
+			if i == 0 && w.dupFirst && w.nMirror > 0 {
+				n++ // listed twice
+			}
+		}
+	}
+	return n
 }
 
 // ---------------------------------------------------------------------------
@@ -327,6 +397,65 @@ func (w *world) classify(e *rm.Entry) entryClass {
 		return entryClass{kind: "other"}
 	}
 	return entryClass{kind: "other"}
+}
+
+// dimClasses labels the configuration dimensions of a case for the evidence histogram.
+func dimClasses(c Case) []string {
+	out := []string{}
+	add := func(cond bool, l string) {
+		if cond {
+			out = append(out, "dim:"+l)
+		}
+	}
+	add(c.Alias != "", "alias:"+c.Alias)
+	add(c.DupMirror, "dup-mirror")
+	add(c.Slots > 0, fmt.Sprintf("slots:%d", c.Slots))
+	add(c.ReqPerSec > 0, "req-per-sec")
+	add(c.RepoAuth, "repo-auth")
+	add(c.Creds, "creds")
+	add(c.Defaults, "client-defaults")
+	add(c.DelayMaxMs > 0 && c.DelayMaxMs < c.DelayInitMs, "delaymax-below-init")
+	add(c.DelayMaxMs == 0, "delaymax-unset")
+	add(len(c.Mirrors) >= 12, "many-mirrors")
+	pre, nh, raOther, raDate := false, c.Up.NoHead, false, false
+	scan := func(l Letter) {
+		if l.K == "st" && l.RA != "" {
+			if _, err := strconv.ParseFloat(l.RA, 64); err != nil {
+				raDate = true
+			} else if l.S != 429 {
+				raOther = true
+			}
+		}
+	}
+	for _, h := range append([]HostSpec{c.Up}, c.Mirrors...) {
+		pre = pre || h.Prefix != ""
+		nh = nh || h.NoHead
+		for _, l := range h.Word {
+			scan(l)
+		}
+		if h.Tail != nil {
+			scan(*h.Tail)
+		}
+	}
+	add(pre, "path-prefix")
+	add(nh, "disable-head")
+	add(raOther, "retry-after-on-5xx")
+	add(raDate, "retry-after-http-date")
+	for _, r := range c.Reqs {
+		add(r.Ctx != "", "ctx:"+r.Ctx)
+	}
+	p := c.P
+	add(p.CancelAt > 0, "ctx:cancel-at-request")
+	add(p.Cache, "cache")
+	add(p.HostChunk, "host-chunk")
+	add(p.BlobLimit > 0, "blob-limit")
+	add(p.Sha512, "sha512")
+	add(p.Platform, "platform")
+	add(p.RequireDigest, "require-digest")
+	add(p.ByTag, "referrers-by-tag")
+	add(p.ArtifactType, "referrers-artifact-type")
+	add(p.RepoLimit > 0 || p.Last != "", "list-limit-last")
+	return out
 }
 
 func caseJSON(c Case) string {
